@@ -9,6 +9,11 @@ package slip
 // C17, package-wide: a function that takes a sync lock itself has released it
 // again on every normal return path (directly or through a deferred call).
 //@ every-function slip lock-balance
+// C17, package-wide: a function that asks for the process-wide printer (slip.DefaultPrinter()) works on
+// a copy: it never stores through that pointer and never hands it to a function that stores to Printer
+// fields. Print settings a routine binds stay its own; what one routine prints cannot change what
+// another prints.
+//@ every-function slip shared-printer-kept
 
 // C07, package-wide: a function that evaluates Lisp forms itself forwards the
 // return-from / go marker an evaluation hands back: nothing more is evaluated
@@ -304,6 +309,11 @@ package slip
 //@   on-call Let#7 key-default-is-evaluated: is_form(ad.Default) ==> ($n >= 1 && $arg1 == $eres[$n - 1])
 //@   on-call Let#8 aux-value-is-evaluated: is_form(ad.Default) ==> ($n >= 1 && $arg1 == $eres[$n - 1])
 //@   on-store parents#1 caller-scope-first: len(now) >= 2 && now[0] == s && now[len(now) - 1] == lam.Closure
+// C01 / C06: the list bound to a &rest parameter is built by this call; it never shares storage with
+// the caller's argument vector (mapcar and friends reuse one vector for every call they make).
+//@   on-call Let#4 rest-list-is-this-calls-own: len(rest) == 0 || fresh(rest)
+//@   loop rangeindex+1<len(_.Args)#1: invariant rest-is-own: cap(rest) == 0 || fresh(rest)
+//@   loop ai<len(args)#1: invariant rest-is-own: cap(rest) == 0 || fresh(rest)
 
 // C04 / C01: a variable that is bound in the scope itself is bound whatever its
 // value is - also when the value is nil: an argument that was supplied as nil is
@@ -450,6 +460,15 @@ package slip
 //@ func slip.coerceToInteger
 //@   property C16
 //@   ensures type: implements(result, Integer)
+//@ func slip.coerceToRatio
+//@   property C16
+//@   ensures type: is(result, ptr(Ratio))
+//@ func slip.coerceToRational
+//@   property C16
+//@   ensures type: implements(result, Rational)
+//@ func slip.coerceToFloat
+//@   property C16
+//@   ensures type: implements(result, Float)
 //@ func slip.coerceToBignum
 //@   property C16
 //@   ensures type: is(result, ptr(Bignum))
@@ -512,6 +531,17 @@ package slip
 // C11 / C10: daemon order of a combined method. Before daemons run in
 // combination order (most specific first), then the first primary, then the
 // after daemons in the reverse order; the bound-call variant must do the same.
+// C11: a method with whoppers starts with the first whopper in combination order, and the location
+// bound for continue-whopper names exactly the combination whose whopper is about to run (continue
+// goes on from the one after it: a location that lags behind runs the same whopper again).
+//@ func slip.(*Method).Call
+//@   property C11 C10
+//@   on-call Let#1 location-names-the-running-wrapper: is($arg1, ptr(WhopLoc)) && as($arg1, ptr(WhopLoc)).Current == i && as($arg1, ptr(WhopLoc)).Method == m
+//@   on-call Call#1 first-whopper-in-order: c == m.Combinations[i] && c.Wrap != nil
+//@   loop rangeindex: invariant no-whopper-so-far: forall j :: (0 <= j && j <= rangeindex) ==> m.Combinations[j].Wrap == nil
+//@ func slip.(*Method).BoundCall
+//@   property C11 C10
+//@   on-call Let#1 location-names-the-running-wrapper: is($arg1, ptr(WhopLoc)) && as($arg1, ptr(WhopLoc)).Current == i && as($arg1, ptr(WhopLoc)).Method == m
 //@ func slip.(*Method).InnerCall
 //@   property C11 C10
 //@   on-call Call#1 before-daemon-of-this-combination: $arg0 == s && $arg1 == args
